@@ -36,6 +36,9 @@ FIXED = [
  ("C20", "fix: rows with an empty key", "MutateRow with an empty row key is stored; ReadRows then emits a chunk without a row key"),
  ("C20", "fix: DropRowRange(all) on a table deleted", "disk engine: DropRowRange(all) on a table that is concurrently deleted and re-created: the deleted table's object clears/re-opens the directory the new table owns; the second open fails on the leveldb file lock and the handler panics (recorded as an open finding until repaired)"),
  ("C08", "fix: a ModifyColumnFamilies racing DeleteTable", "disk engine: ModifyColumnFamilies that looked the table up before a concurrent DeleteTable (+ CreateTable of the same name) persists the deleted table's definition: after a restart the re-created table has the old families, or the deleted table is back (replays in findings/)"),
+ ("C20", "fix: GetTable and ModifyColumnFamilies handed out", "data race: the *Table returned by GetTable/ModifyColumnFamilies is the live definition, serialized after the lock is released while a concurrent ModifyColumnFamilies edits its families map (race supplement: ModifyColumnFamilies <-> proto.Marshal of the response)"),
+ ("C20", "fix: GenerateConsistencyToken and CheckConsistency", "data race: GenerateConsistencyToken/CheckConsistency read server.tables without the server lock while CreateTable/DeleteTable write it (race supplement: CreateTable <-> GenerateConsistencyToken)"),
+ ("C20", "fix: requests for one resumable upload id", "data race: two PUTs naming one resumable upload id truncate and append the shared buffer concurrently (race supplement: handleGcsNewObjectResume <-> handleGcsNewObjectResume)"),
  ("C20", "fix: a metadata PATCH with the body", "PATCH of an object's metadata with the JSON body null -> nil dereference"),
  ("C20", "fix: downloading an object marked gzip", "GET alt=media of an object with contentEncoding=gzip whose bytes are not gzip -> nil dereference"),
  ("C17", "fix: leveldb row iteration ignored", "leveldb engines: a filter error raised on a non-last row is overwritten by the next row; read ends OK with the row missing (btree returns InvalidArgument; seen through C05)"),
